@@ -3,7 +3,9 @@ PROP = {
     "module": "UmProps.C01",
     "gen_modules": ["ChunkTables", "Consts"],
     "oracle_prefix": "C01",
-    "streams": [{"name": "broker", "harness": "umh_broker", "driver": "broker"}],
+    "streams": [{"name": "broker", "harness": "umh_broker", "driver": "broker"},
+                # the same model against the broker's HTTP API (warp routes + JSON, the coordinator's HTTP clients): notes/http.md
+                {"name": "http", "harness": "umh_http", "driver": "broker"}],
     "search_s": 300,
     "assumptions": [
         "both modes of MetaStore are modelled (enable_ordered_proxy = false / true; a history of an ordered-mode broker starts with the pseudo-operation Op.setOrdered, see notes/ordered.md); about a quarter of the generated cases run MetaStore::new(true)",
@@ -16,7 +18,7 @@ PROP = {
 }
 
 CHECK = {
-    "text": "Proved in Lean for every operation list (any order of create/scale/commit/failover/balance/config/delete, any allocation choice), every intermediate state, every migration limit: the store invariants PosInv/TwinInv/SlotInv hold and every served whole-cluster view is a PartitionView (each slot exactly one owner among stable+migrating ranges of masters, replicas own nothing, every migrating range has exactly one importing twin with identical range/epoch/addresses on the destination master); every per-proxy view is the projection of such a view and owns each slot once. Hypothesis: at most 16384 masters per cluster. Tie to the code: the hand-written broker model (every MetaStore mutator and query) is replayed against the real MetaStore on ~70k lines per run (full canonical store + digest of every served view for limits 0..2 after every op) and the partition oracle is evaluated on every served view for limits 0..3.",
+    "text": "Proved in Lean for every operation list (any order of create/scale/commit/failover/balance/config/delete, any allocation choice), every intermediate state, every migration limit: the store invariants PosInv/TwinInv/SlotInv hold and every served whole-cluster view is a PartitionView (each slot exactly one owner among stable+migrating ranges of masters, replicas own nothing, every migrating range has exactly one importing twin with identical range/epoch/addresses on the destination master); every per-proxy view is the projection of such a view and owns each slot once. Hypothesis: at most 16384 masters per cluster. Tie to the code: the hand-written broker model (every MetaStore mutator and query) is replayed against the real MetaStore on ~70k lines per run (full canonical store + digest of every served view for limits 0..2 after every op) and the partition oracle is evaluated on every served view for limits 0..3. Stream 'http' repeats the tie one layer up: the same model is replayed against a real run_server(MemBrokerService) on loopback, driven through the coordinator's own HTTP clients and reqwest (every route, JSON bodies, gzip, pagination, error bodies), and the partition oracle is evaluated on every view as decoded by HttpMetaBroker (known finding F01h: proxy addresses with URL-sensitive characters are accepted but cannot be addressed afterwards).",
     "design_ref": "§6 C01",
     "note": "Trusted: Lean kernel; hand-written broker model (validated differentially each run); generated chunk index tables; allocation choices taken from the implementation and checked against the model's allowed set; both proxy-allocation modes (enable_ordered_proxy off/on) modelled.",
     "technique": "Lean 4 invariant proofs over a broker state-machine model + differential correspondence with the real MetaStore",
